@@ -83,6 +83,7 @@ class AudioSim(AoefSim):
         self.checked_arrays = 0
         self.ambiguous = 0
         self.file_versions = {}
+        self.last_clip_end = {}
 
     # -------------------------------------------------------------- helpers
 
@@ -373,6 +374,10 @@ class AudioSim(AoefSim):
             )
             return
         self.checked_arrays += 1
+        last = self.last_clip_end.get((op["node"], op["r"]))
+        if last is not None and last == start and end > start:
+            self.probes.hit("C15:clip-starts-exactly-where-previous-ended")
+        self.last_clip_end[(op["node"], op["r"])] = end
         self.probes.hit(f"C15:clip-{situation}")
         if situation == "crossing-eof":
             self.probes.hit("C15:clip-crosses-eof")
@@ -711,7 +716,7 @@ def gen_ops(rng, cfg, seed_tag):
 
     while len(ops) < cfg["max_ops"]:
         pat = rng.choice(["basic", "basic", "eof", "grow", "derived", "fault",
-                          "restart", "tiny", "tear", "scribble"])
+                          "restart", "tiny", "tear", "scribble", "tiles"])
         if not files or rng.random() < 0.25:
             create()
         f = rng.choice(sorted(files))
@@ -770,6 +775,21 @@ def gen_ops(rng, cfg, seed_tag):
         elif pat == "restart":
             ops.append({"op": "restart", "node": node()})
             load_clip(r)
+        elif pat == "tiles":
+            # back-to-back clips: each starts exactly where the previous one
+            # ended (same float), boundaries mostly off the sample grid
+            f2, rec_sr = recs[r]
+            frames = files[f2][1]
+            n = node()
+            t = a_time(rec_sr, max(frames // 2, 1))
+            for _ in range(rng.randint(2, 4)):
+                step = rng.choice([rng.random() * 40 + 0.3, rng.randint(1, 30) + 0.5,
+                                   rng.randint(1, 30), 0.7]) / rec_sr
+                hh = h()
+                ops.append({"op": "load_clip", "r": r, "start": t, "end": t + step,
+                            "node": n, "h": hh, "fault": None, "audio_as": "str"})
+                arrays.append((hh, n))
+                t = t + step
         elif pat == "scribble":
             # load, modify the returned array in place, load the same again
             n = node()
@@ -863,6 +883,7 @@ CORE_PROBES = {
         "C15:spectrogram-fractional-window-or-hop",
         "C15:clip-vs-recording-compared",
         "C15:returned-array-modified-in-place",
+        "C15:clip-starts-exactly-where-previous-ended",
         "file:truncated-payload",
         "file:grown",
         "file:grown-header-stale",
